@@ -139,9 +139,9 @@ def mv_not(x1 : np.ndarray, out=None):
 
 def _mv_or(out, *ins):
     any_unknown = (ins[0] == UNKNOWN) | (ins[0] == UNASSIGNED)
-    for inp in ins[1:]: any_unknown |= (inp == UNKNOWN) | (inp == UNASSIGNED)
+    for inp in ins[1:]: any_unknown = any_unknown | (inp == UNKNOWN) | (inp == UNASSIGNED)
     any_one = (ins[0] == ONE)
-    for inp in ins[1:]: any_one |= (inp == ONE)
+    for inp in ins[1:]: any_one = any_one | (inp == ONE)
 
     out[...] = ZERO
     np.putmask(out, any_one, ONE)
@@ -165,9 +165,9 @@ def mv_or(x1, x2, out=None):
 
 def _mv_and(out, *ins):
     any_unknown = (ins[0] == UNKNOWN) | (ins[0] == UNASSIGNED)
-    for inp in ins[1:]: any_unknown |= (inp == UNKNOWN) | (inp == UNASSIGNED)
+    for inp in ins[1:]: any_unknown = any_unknown | (inp == UNKNOWN) | (inp == UNASSIGNED)
     any_zero = (ins[0] == ZERO)
-    for inp in ins[1:]: any_zero |= (inp == ZERO)
+    for inp in ins[1:]: any_zero = any_zero | (inp == ZERO)
 
     out[...] = ONE
     np.putmask(out, any_zero, ZERO)
@@ -192,7 +192,7 @@ def mv_and(x1, x2, out=None):
 
 def _mv_xor(out, *ins):
     any_unknown = (ins[0] == UNKNOWN) | (ins[0] == UNASSIGNED)
-    for inp in ins[1:]: any_unknown |= (inp == UNKNOWN) | (inp == UNASSIGNED)
+    for inp in ins[1:]: any_unknown = any_unknown | (inp == UNKNOWN) | (inp == UNASSIGNED)
 
     out[...] = ZERO
     for inp in ins:
